@@ -111,7 +111,9 @@ def build(case, tmp):
             if sliced:
                 # X is the part of the file between two occurrences of one marker text (the end text is looked for
                 # *after* the start text)
-                fh.write("skipped head\n\nMARKX\n\n" + x_text + "\n\nMARKX\n\nskipped tail\n")
+                # (the end marker directly follows X's last line, so that the selected text ends like the plain file does:
+                # an unclosed fence at the end of X would otherwise take in a different number of trailing blank lines)
+                fh.write("skipped head\n\nMARKX\n\n" + x_text + "\nMARKX\n\nskipped tail\n")
             else:
                 fh.write(x_text + "\n")
         inc_block = {"t": "directive", "name": "include", "arg": "xfile.md", "raw": "",
